@@ -383,6 +383,8 @@ def run_case(case):
                     m.add(new, name, f)
                 if st["add"]:
                     name = f"{f[0]}f{len(old) + rng.randint(3, 9)}"
+                    while name in new or name + "_k" in new:
+                        name += "n"  # (never reuse the name of a function that a start-up killer of this file deletes)
                     m.add(new, name, f)
                 if m.present[f]:
                     for inst in old.values():
